@@ -166,6 +166,12 @@ class Ops:
             ra, rb = self.st.dicts[a.did], self.st.dicts[b.did]
             if ra.kind == "conc" and rb.kind == "conc" and not ra.items and not rb.items:
                 return TRUE
+            if ra.kind == "conc" and rb.kind == "conc" and len(ra.items) == len(rb.items):
+                return z3.And(*[z3.And(self.eq(k1, k2), self.eq(v1, v2)) for (k1, v1), (k2, v2) in zip(ra.items, rb.items)]) if ra.items else TRUE
+            if ra.kind == "sym" and rb.kind == "sym":
+                k = z3.Int(fresh_name("dk"))
+                return z3.ForAll([k], z3.And(z3.Select(ra.has, k) == z3.Select(rb.has, k),
+                                             z3.Implies(z3.Select(ra.has, k), z3.Select(ra.vals, k) == z3.Select(rb.vals, k))))
             raise Unsupported("dict equality")
         if type(a) is not type(b):
             return FALSE
@@ -319,7 +325,9 @@ class Ops:
             return [("conc", list(rec.items))]
         if rec.kind == "base":
             g = fresh_int("g")
-            return [Seg(v.lid, tuple(v.idx), self.base_len(v.lid, tuple(v.idx)), g, TRUE, SElem(v.lid, tuple(v.idx) + (g,)))]
+            rec_t = rec.elem_type
+            mapv = SElem(v.lid, tuple(v.idx) + (g,)) if (rec_t is None or rec_t[0] == "obj") else self.I.elem_value(v.lid, tuple(v.idx) + (g,))
+            return [Seg(v.lid, tuple(v.idx), self.base_len(v.lid, tuple(v.idx)), g, TRUE, mapv)]
         return list(rec.segs)
 
     def list_len(self, v):
